@@ -2,6 +2,9 @@ import OnlVerif.Lemmas.TcpSink
 import OnlVerif.Lemmas.TcpSender
 import OnlVerif.Lemmas.TcpLoop
 import OnlVerif.Lemmas.GenSink
+import OnlVerif.Lemmas.TcpLiveQuiet
+import OnlVerif.Lemmas.TcpLiveRun
+import OnlVerif.Lemmas.TcpLiveTRun
 /-!
 # C16 — TCP acknowledgements are cumulative and correct; all data gets through
 
@@ -10,14 +13,19 @@ import OnlVerif.Lemmas.GenSink
   pairwise non-touching, and covers exactly the received bytes.  Sequence numbers and sizes are natural numbers.
 * **Sender** (`OnlVerif/Tcp/CC.lean`, LTS of `TCPPacketGenerator` over exact rationals `ℚ`): no sequence of actions
   raises; on a loss-free, timely path nothing is sent twice; partial progress lemmas.
+* **Closed loop** (`OnlVerif/Tcp/Loop.lean`, `LoopLive.lean`: sender ∥ lossy FIFO data path ∥ sink ∥ lossy FIFO ACK
+  path) for a finite flow: the run never ends early (`quiescent_implies_complete`), never gets stuck (`never_stuck`),
+  no reachable state is a dead end (`can_always_complete`), and every run with finitely many losses terminates with
+  everything delivered and acknowledged - on paths that deliver at once (`terminates_under_loss_budget`) and on paths
+  with arbitrary finite per-packet delays, where timers expire while packets are in flight
+  (`terminates_over_delaying_paths`).
 
-Closed-loop liveness (sender + sink + two lossy FIFO paths reach `last_ack = size` for every finite drop pattern) is
-**not** proved; the statement is kept at the end with what is missing.  The correspondence check explores drop
-patterns against the real code as a failing-input search, not as that proof.
+What these theorems do not give is listed in the comment before the examples.  The correspondence check explores drop
+patterns against the real code as a failing-input search, not as a proof.
 -/
 
 namespace C16
-open TcpSink TcpSender TcpScalar TcpCC TcpLoop
+open TcpSink TcpSender TcpScalar TcpCC TcpLoop TcpLive
 
 /-! ## the sink -/
 
@@ -206,8 +214,167 @@ theorem acks_in_flight_are_backed_partial (s0 : Sender ℚ) (l : Loop ℚ) (h0 :
     obtain ⟨n, hn, _⟩ := ackOf_isPrefix _ hsep' (packetArrived_ne_nil l.sink tx.seq tx.size)
     exact ⟨n, by unfold TcpSink.put; exact hn⟩
 
+/-! ### liveness, safety half: no premature quiescence -/
+
+/-- **If the run ends, everything was delivered and acknowledged.**  Take a freshly constructed generator for a
+finite flow of `n > 0` bytes, `n` a multiple of the generator's segment size `mss > 0`, around a congestion-control
+object with `cwnd ≥ cc.mss > 0`, `ssthresh ≥ 0` (`CCInv`) whose own MSS is not smaller than the generator's
+(`mss ≤ cc.mss`; both are 512 by default), with `rtt_estimate > 0`.  In **every** state `l` of the closed loop
+sender ∥ lossy FIFO data path ∥ sink ∥ lossy FIFO ACK path reachable from it - any interleaving of sender bursts,
+deliveries, ACK arrivals, clock ticks, and any packet or ACK lost at any time - in which the simulation kernel has no
+event left (`Loop.Quiescent`: nothing in flight in either direction, no live retransmission timer, `run` neither
+scheduled nor about to be handed a wake-up token; this is when the real `env.run()` returns), the sink's receive buffer
+is exactly `[(0, n)]` and `last_ack = n`.  So losses can delay the transfer but the protocol never gives up early:
+while a segment or its acknowledgement is missing something is still pending. -/
+theorem quiescent_implies_complete (kind : CCKind) (cc : CCState ℚ) (rtt : ℚ) (mss n : Nat) (now : ℚ)
+    (hcc : CCInv kind cc) (hrtt : 0 < rtt) (hn : 0 < n) (hm : 0 < mss) (hd : mss ∣ n) (hc : (mss : ℚ) ≤ cc.mss)
+    (l : Loop ℚ) (hr : LReach (Loop.init (Sender.init kind cc rtt mss (some n) now)) l) (hq : l.Quiescent) :
+    l.sink = [(0, n)] ∧ l.snd.last_ack = n :=
+  quiescent_complete (reach_LInv (LInv_init (fresh_init kind cc rtt mss n now hcc hrtt hn hm hd hc)) hr) hq
+
+/-- `Loop.Quiescent` means what it should: in a quiescent state no action of the closed loop other than the passing
+of time is accepted (no resumption of `run`, no hand-off, no timer expiry, no delivery, no ACK arrival, nothing to
+lose) -/
+theorem quiescent_means_no_event (l : Loop ℚ) (hq : l.Quiescent) (a : LAct ℚ) (hnt : ∀ t, a ≠ .own (.tick t)) :
+    l.step a = none :=
+  quiescent_no_event hq a hnt
+
+/-- the invariant behind it, for every reachable state (quiescent or not): while anything is unacknowledged the first
+unacknowledged segment is under a retransmission timer; a blocked `run` with no token pending has something
+outstanding; every ACK in flight still finds the timer of the segment at its number; the sink holds whole aligned
+segments below `next_seq`, everything below `last_ack`, and whatever it lacks below `next_seq` is timed -/
+theorem liveness_invariant (kind : CCKind) (cc : CCState ℚ) (rtt : ℚ) (mss n : Nat) (now : ℚ)
+    (hcc : CCInv kind cc) (hrtt : 0 < rtt) (hn : 0 < n) (hm : 0 < mss) (hd : mss ∣ n) (hc : (mss : ℚ) ≤ cc.mss)
+    (l : Loop ℚ) (hr : LReach (Loop.init (Sender.init kind cc rtt mss (some n) now)) l) :
+    (l.snd.last_ack < l.snd.next_seq → l.snd.last_ack ∈ AL.keys l.snd.timers) ∧
+    (l.snd.proc = .blocked → 0 < l.snd.tokens ∨ l.snd.last_ack < l.snd.next_seq) ∧
+    (l.snd.proc = .finished → l.snd.next_seq = n) ∧
+    (∀ a ∈ l.acks, l.snd.last_ack ≤ a.ackno ∧ (a.ackno < l.snd.next_seq → a.ackno ∈ AL.keys l.snd.timers)) ∧
+    (∀ q, mss ∣ q → q < l.snd.next_seq → Covers l.sink q ∨ q ∈ AL.keys l.snd.timers) ∧
+    (∀ b, b < l.snd.last_ack → Covers l.sink b) ∧ l.snd.last_ack ≤ l.snd.next_seq ∧ l.snd.next_seq ≤ n := by
+  obtain ⟨h, hmss⟩ := reach_mss (LInv_init (fresh_init kind cc rtt mss n now hcc hrtt hn hm hd hc)) hr
+  have hmss : l.snd.mss = mss := hmss
+  refine ⟨h.s.tm, h.s.blk, h.s.finished, fun a ha => ⟨(h.acks a ha).ge, (h.acks a ha).timed⟩, ?_, h.lap, h.s.la_le, h.s.ns_le⟩
+  rw [← hmss]
+  exact h.seg
+
+/-! ### liveness: no dead end -/
+
+/-- **No reachable state is a dead end: losses can delay the transfer but never wedge it.**  Under the hypotheses of
+`quiescent_implies_complete`, from **every** state `l` of the closed loop that is reachable by any interleaving and any
+losses there is a finite sequence `acts` of loop actions **without any further loss** (`noDrop`: no `dropData`, no
+`dropAck`) that is accepted action by action and ends in a state that is quiescent (the run is over) with
+`sink = [(0, n)]` and `last_ack = n`.  The witness is constructive: any fair schedule works - deliver what is in
+flight, resume `run` when it is scheduled, let due timers fire, advance the clock to the next timer only when nothing
+else can happen (`Loop.Fair`); each such step decreases the lexicographic measure `TcpLive.mu`. -/
+theorem can_always_complete (kind : CCKind) (cc : CCState ℚ) (rtt : ℚ) (mss n : Nat) (now : ℚ)
+    (hcc : CCInv kind cc) (hrtt : 0 < rtt) (hn : 0 < n) (hm : 0 < mss) (hd : mss ∣ n) (hc : (mss : ℚ) ≤ cc.mss)
+    (l : Loop ℚ) (hr : LReach (Loop.init (Sender.init kind cc rtt mss (some n) now)) l) :
+    ∃ acts l', (∀ a ∈ acts, a.noDrop = true) ∧ l.run acts = some l' ∧ l'.Quiescent ∧
+      l'.sink = [(0, n)] ∧ l'.snd.last_ack = n := by
+  obtain ⟨acts, l', h1, h2, h3, h4⟩ :=
+    can_complete (reach_LInv (LInv_init (fresh_init kind cc rtt mss n now hcc hrtt hn hm hd hc)) hr)
+  exact ⟨acts, l', h1, h2, h3, h4.1, h4.2⟩
+
+/-- **while the run is not over something can happen**: in every reachable state that is not quiescent, some action
+of the fair discipline (a delivery, an ACK arrival, a resumption of `run`, a token hand-off, the expiry of a due timer,
+or - when none of these is possible - the advance of the clock to the next timer) is accepted -/
+theorem never_stuck (kind : CCKind) (cc : CCState ℚ) (rtt : ℚ) (mss n : Nat) (now : ℚ)
+    (hcc : CCInv kind cc) (hrtt : 0 < rtt) (hn : 0 < n) (hm : 0 < mss) (hd : mss ∣ n) (hc : (mss : ℚ) ≤ cc.mss)
+    (l : Loop ℚ) (hr : LReach (Loop.init (Sender.init kind cc rtt mss (some n) now)) l) (hq : ¬ l.Quiescent) :
+    ∃ a l', Loop.Fair l a ∧ l.step a = some l' :=
+  fair_progress (reach_LInv (LInv_init (fresh_init kind cc rtt mss n now hcc hrtt hn hm hd hc)) hr) hq
+
+/-! ### liveness: termination under finitely many losses -/
+
+/-- **Every fair run with finitely many losses is finite and ends with everything delivered and acknowledged.**
+Runs with a loss budget (`Loop.BStep` on pairs `(k, l)`): a step is either a *fair* step of the closed loop
+(`Loop.Fair`: any enabled burst - resumption of `run`, token hand-off, expiry of a due timer, delivery of the head of
+the data path, arrival of the head of the ACK path - in **any** order; the clock advances only when neither path holds
+a packet, and then exactly to the next timer wake-up, as the kernel jumps to its next event), or the loss of any packet
+or ACK in flight, which consumes one unit of the budget `k` - "the path drops finitely many packets".  Under the
+hypotheses of `quiescent_implies_complete`, for every budget `k`:
+
+1. there is **no infinite run** from the initial state - the sender cannot retransmit for ever, the two paths cannot
+   bounce packets for ever, the clock cannot advance for ever;
+2. every state `(k', l)` the run can reach from which **no step is possible** (the run is maximal) is quiescent and has
+   `sink = [(0, n)]`, `last_ack = n`.
+
+So every maximal run reaches the complete state after finitely many steps, whichever packets (at most `k`) are lost
+and however the enabled bursts are interleaved. -/
+theorem terminates_under_loss_budget (kind : CCKind) (cc : CCState ℚ) (rtt : ℚ) (mss n : Nat) (now : ℚ)
+    (hcc : CCInv kind cc) (hrtt : 0 < rtt) (hn : 0 < n) (hm : 0 < mss) (hd : mss ∣ n) (hc : (mss : ℚ) ≤ cc.mss)
+    (k : Nat) :
+    (¬ ∃ f : Nat → Nat × Loop ℚ, f 0 = (k, Loop.init (Sender.init kind cc rtt mss (some n) now)) ∧
+        ∀ i, Loop.BStep (f i) (f (i + 1))) ∧
+    (∀ k' l, Relation.ReflTransGen Loop.BStep (k, Loop.init (Sender.init kind cc rtt mss (some n) now)) (k', l) →
+        (∀ y, ¬ Loop.BStep (k', l) y) → l.Quiescent ∧ l.sink = [(0, n)] ∧ l.snd.last_ack = n) := by
+  have h0 := LInv_init (fresh_init kind cc rtt mss n now hcc hrtt hn hm hd hc)
+  refine ⟨no_infinite_of_acc (bstep_acc k _ h0), fun k' l hr hstuck => ?_⟩
+  have h : LInv n l := breach_LInv hr h0
+  have hq := stuck_quiescent h hstuck
+  exact ⟨hq, quiescent_complete h hq⟩
+
+/-- the same from any reachable state (whatever was lost before), as well-foundedness: the converse of `Loop.BStep` is
+well-founded below every `(k, l)` with `l` reachable -/
+theorem fair_runs_wellFounded (kind : CCKind) (cc : CCState ℚ) (rtt : ℚ) (mss n : Nat) (now : ℚ)
+    (hcc : CCInv kind cc) (hrtt : 0 < rtt) (hn : 0 < n) (hm : 0 < mss) (hd : mss ∣ n) (hc : (mss : ℚ) ≤ cc.mss)
+    (l : Loop ℚ) (hr : LReach (Loop.init (Sender.init kind cc rtt mss (some n) now)) l) (k : Nat) :
+    Acc (fun y x => Loop.BStep x y) (k, l) :=
+  bstep_acc k l (reach_LInv (LInv_init (fresh_init kind cc rtt mss n now hcc hrtt hn hm hd hc)) hr)
+
+/-- a budgeted fair run is in particular a run of the closed loop (so all safety results apply to it), it stops
+exactly in the quiescent states, and each fair step decreases the measure `TcpLive.mu` in the lexicographic order -/
+theorem fair_run_facts (n : Nat) (l : Loop ℚ) (h : LInv n l) :
+    (∀ k y, Relation.ReflTransGen Loop.BStep (k, l) y → LReach l y.2) ∧
+    (∀ k, l.Quiescent ↔ ∀ y, ¬ Loop.BStep (k, l) y) ∧
+    (∀ a l', Loop.Fair l a → l.step a = some l' → Lt5 (mu n l') (mu n l)) :=
+  ⟨fun _ _ hr => breach_lreach hr, fun _ => ⟨fun hq => quiescent_stuck hq, fun hs => stuck_quiescent h hs⟩,
+   fun _ _ hf hs => fair_decreases h hf hs⟩
+
+/-! ### liveness: termination over paths with delay -/
+
+/-- **Over any pair of order-preserving paths that delay every packet by a finite amount and drop finitely many, the
+transfer completes.**  `TLoop` attaches to each packet in flight the instant by which its path delivers it - chosen
+arbitrarily, per packet, when it enters the path (not in the past).  A step (`TLoop.TStep`) is any enabled burst of the
+sender, a delivery or an ACK arrival (possibly before that instant), or the advance of the clock from one event instant
+to the next (a timer wake-up or a delivery instant), never beyond the delivery instant of a packet in flight nor
+beyond a due timer - so **retransmission timers may expire while packets and ACKs are still in flight** (round-trip
+times above the RTO, spurious retransmissions, duplicate ACKs and fast retransmits included); `TLoop.TBStep` adds the
+loss of any packet in flight against a budget `k`.  Under the hypotheses of `quiescent_implies_complete`, for every `k`:
+
+1. there is **no infinite run** from the initial state;
+2. every reachable state from which **no step is possible** is quiescent and has `sink = [(0, n)]`, `last_ack = n`.
+
+The measure (`TcpLive.tmu`, lexicographic): what the sink's prefix, `last_ack` and `next_seq` still have to go; whether
+an ACK beyond `last_ack`, or else a copy of the segment at `last_ack`, is already in flight; the number of timer
+expiries that can still precede the delivery instant of that packet (or, if there is none, the expiry of the timer of
+`last_ack`) - finite because every expiry doubles the RTO; the weight of the packets in flight; the events not yet
+due. -/
+theorem terminates_over_delaying_paths (kind : CCKind) (cc : CCState ℚ) (rtt : ℚ) (mss n : Nat) (now : ℚ)
+    (hcc : CCInv kind cc) (hrtt : 0 < rtt) (hn : 0 < n) (hm : 0 < mss) (hd : mss ∣ n) (hc : (mss : ℚ) ≤ cc.mss)
+    (k : Nat) :
+    (¬ ∃ f : Nat → Nat × TLoop ℚ, f 0 = (k, TLoop.init (Sender.init kind cc rtt mss (some n) now)) ∧
+        ∀ i, TLoop.TBStep (f i) (f (i + 1))) ∧
+    (∀ k' L, Relation.ReflTransGen TLoop.TBStep (k, TLoop.init (Sender.init kind cc rtt mss (some n) now)) (k', L) →
+        (∀ y, ¬ TLoop.TBStep (k', L) y) → L.l.Quiescent ∧ L.l.sink = [(0, n)] ∧ L.l.snd.last_ack = n) := by
+  have h0 := TInv_init (fresh_init kind cc rtt mss n now hcc hrtt hn hm hd hc)
+  refine ⟨no_infinite_of_acc (tbstep_acc k _ h0), fun k' L hr hstuck => ?_⟩
+  have h : TInv n L := tbreach_TInv hr h0
+  have hq := tstuck_quiescent h hstuck
+  exact ⟨hq, quiescent_complete h.inv hq⟩
+
+/-- runs over timed paths are runs of the closed loop (all safety results apply), they can continue exactly while the
+state is not quiescent, and every loss-free step decreases `TcpLive.tmu` -/
+theorem timed_run_facts (n : Nat) (L : TLoop ℚ) (h : TInv n L) :
+    (∀ k y, Relation.ReflTransGen TLoop.TBStep (k, L) y → LReach L.l y.2.l) ∧
+    (∀ k, L.l.Quiescent ↔ ∀ y, ¬ TLoop.TBStep (k, L) y) ∧
+    (∀ L', TLoop.TStep L L' → Lt5 (tmu n L') (tmu n L)) :=
+  ⟨fun _ _ hr => tbreach_lreach hr, fun _ => ⟨fun hq => tquiescent_stuck h hq, fun hs => tstuck_quiescent h hs⟩,
+   fun _ hs => tstep_decreases h hs⟩
+
 /-
-**Not proved — closed-loop liveness.**  Full statement:
+**Closed-loop liveness: what is proved and what is left.**  Full statement of the property clause:
 
   for every flow size `size = n · MSS`, `n ≥ 1`, every pair of order-preserving paths with arbitrary non-negative
   per-packet delays and finite sets `D`, `A` of dropped transmission indices (data, ACK direction), every
@@ -215,22 +382,35 @@ theorem acks_in_flight_are_backed_partial (s0 : Sender ℚ) (l : Loop ℚ) (h0 :
   the closed system  sender LTS ∥ data path ∥ `TcpSink.put` ∥ ACK path  reaches, after finitely many steps, a state
   with `sink.recv_buffer = [(0, size)]` and `sender.last_ack = size`, and no step on the way is an error.
 
-What is there: `sender_never_raises` (no error, for all ACK/timer sequences, hence in the closed loop too),
-`sink_ack_prefix` (the ACKs that come back are the true prefix lengths), the progress lemmas (a)–(d): every new
-segment is timed; a timer goes away only through an ACK that covers or answers its segment; a due timer retransmits
-and re-arms; a new ACK advances `last_ack` and wakes `run`; and for the closed loop with arbitrary losses the joint
-safety invariant (e), (f): whatever the sink lacks is under a pending timer, and ACKs in flight never overstate what
-the sink holds.
+Proved above for the models `OnlVerif/Tcp/Loop.lean` + `LoopLive.lean`, all for `cc.mss ≥ 512` (see below):
 
-What is missing: (1) the drop sets as *finite* sets of transmission indices (the loop model lets a path lose any
-packet at any time, which is what safety needs but makes liveness false without a fairness/finite-loss assumption);
-(2) the well-founded measure: lexicographically (segments the sink lacks,
-drop indices not yet consumed, retransmissions until the next undropped index) decreases between consecutive timer
-expiries - this needs fairness of the kernel (time advances: G1-G3 of C01) and the argument that the transmission
-indices of both paths eventually exceed `max D`, `max A`; (3) `last_ack = size` at quiescence, i.e. the last ACK is
-retransmitted through duplicate data when it is dropped.  None of these is contradicted by the 7 000+ closed loops
-the thorough tier runs (all drop subsets of size ≤ 2 for flows of ≤ 8 segments, random larger ones), which is evidence,
-not proof.
+* no error on the way: `sender_never_raises`, `acks_in_flight_are_backed_partial`;
+* safety half, for *arbitrary* delays (any interleaving of clock ticks with deliveries) and *arbitrary* losses (any
+  packet in flight may be lost at any time, finitely or infinitely often): `quiescent_implies_complete` - whenever the
+  event queue runs empty, everything has been delivered and acknowledged - and `never_stuck` - until then some event
+  is enabled;
+* `can_always_complete`: from every state reachable under arbitrary delays and losses, a finite loss-free continuation
+  reaches the complete state - no loss pattern can wedge the protocol;
+* `terminates_under_loss_budget`: with at most `k` losses (any `k`, any packets, at any moments), every order of the
+  enabled bursts, on paths that deliver within the instant, every run is finite and ends complete;
+* `terminates_over_delaying_paths`: the same over paths that delay each packet by an arbitrary finite amount, where
+  timers expire while packets are in flight - the statement above, in the model.  "Finite sets of dropped transmission
+  indices" is the loss budget: a run drops at most `|D| + |A|` packets.
+
+What this does not give: (1) the step from the models to the code is the replay correspondence (sender and sink
+separately, closed loops by trace comparison), not a proof; (2) exact rational arithmetic: in floating point a timer
+armed for less than the resolution of the clock never fires (`TimerRec.live = false`), which the theorems exclude;
+(3) in `TLoop` a path may deliver *before* the instant it announced and the clock moves from event to event - a
+superset of the runs of a path with fixed per-packet delays, so nothing is lost, but the bound on the *time* of
+completion (as opposed to the number of steps) is not stated; (4) flows with `start_time`, `finish_time`,
+`arrival_dist`, `size_dist` or a size that is not a multiple of the MSS are outside the model (as for the rest of C16).
+
+**A finding**: `mss ≤ cc.mss` is needed.  `TCPPacketGenerator.mss` is the constant 512 while the congestion-control
+object has its own `mss` parameter; with `TCPReno(mss=100, cwnd=512)`, a flow of 1024 bytes and the first transmission
+of segment 0 dropped, the real run ends (event queue empty) with `last_ack = next_seq = 512`, `recv_buffer =
+[[0, 512]]`: after the timeout `cwnd = cc.mss = 100`, the ACK of the retransmission makes it 200, and the send guard
+`next_seq + 512 ≤ last_ack + cwnd` never opens again while nothing is outstanding that could produce an event (the
+`example` below replays it in the model).
 -/
 
 /-! ## The sink source, re-translated on every run, *is* the model (bridge theorems)
@@ -294,5 +474,87 @@ example : ∃ s1 tx, (Sender.init .reno ({ (TCPCubic.defaults : CCState ℚ) wit
 /-- an ACK that is timely for a state with `last_ack = 0`, `mss = 512`: the ACK of segment 0 -/
 example : TimelyAct (Sender.init .reno (TCPCubic.defaults : CCState ℚ) 1 512 none 0)
     (.ack { fid := 10000, ackno := 512, pid := 0, ptime := 0 }) := ⟨Nat.le_refl _, rfl, rfl⟩
+
+/-- a concrete run of a 2-segment flow (`n = 1024`, Reno with `cc.mss = cwnd = 512`, `rtt_estimate = 1`) with one loss:
+segment 0 is sent and **dropped**; its timer expires at `t = 2` and retransmits it; it is delivered and acknowledged;
+the ACK wakes `run`, which sends segment 512 and returns; that segment is delivered and acknowledged.  The run is
+accepted action by action and ends in a quiescent state, which is complete - as `quiescent_implies_complete` says. -/
+example : ((Loop.init (Sender.init .reno ({ (TCPCubic.defaults : CCState ℚ) with mss := 512, cwnd := 512, ssthresh := 65535 })
+      1 512 (some 1024) 0)).run
+    [.own (.wake 4), .dropData 0, .own (.tick 2), .own (.fire 0), .deliver, .ackArrive, .own .handoff, .own (.wake 4),
+     .deliver, .ackArrive]).map (fun l => (decide l.Quiescent, decide (l.Complete 1024), l.sink, l.snd.last_ack))
+    = some (true, true, [(0, 1024)], 1024) := by decide +kernel
+
+/-- the state after the drop in that run is *not* quiescent (the timer of segment 0 is pending), and not complete -/
+example : ((Loop.init (Sender.init .reno ({ (TCPCubic.defaults : CCState ℚ) with mss := 512, cwnd := 512, ssthresh := 65535 })
+      1 512 (some 1024) 0)).run
+    [.own (.wake 4), .dropData 0]).map (fun l => (decide l.Quiescent, decide (l.Complete 1024), l.snd.timers.length))
+    = some (false, false, 1) := by decide +kernel
+
+/-- **the hypothesis `mss ≤ cc.mss` of `quiescent_implies_complete` is necessary** (a finding about the code: the
+generator's segment size is the constant 512 while the congestion-control object has its own `mss` parameter).  The
+same run with `TCPReno(mss=100, cwnd=512)` - `CCInv` holds, `cwnd ≥ cc.mss` - : segment 0 is sent and dropped; the
+timer expires, `timer_expired()` sets `cwnd = cc.mss = 100`, segment 0 is retransmitted, delivered, acknowledged; the
+new ACK grows the window to 200 and wakes `run`, whose guard `512 + 512 ≤ min(1024, 512 + 200)` fails; `run` blocks
+with nothing outstanding, no timer, nothing in flight: the kernel runs out of events with the second segment never
+sent (`next_seq = 512 < 1024`). -/
+example : ((Loop.init (Sender.init .reno ({ (TCPCubic.defaults : CCState ℚ) with mss := 100, cwnd := 512, ssthresh := 65535 })
+      1 512 (some 1024) 0)).run
+    [.own (.wake 4), .dropData 0, .own (.tick 2), .own (.fire 0), .deliver, .ackArrive, .own .handoff, .own (.wake 4)]).map
+      (fun l => ((decide l.Quiescent, decide (l.Complete 1024), l.sink), (l.snd.last_ack, l.snd.next_seq, l.snd.proc)))
+    = some ((true, false, [(0, 512)]), (512, 512, .blocked)) := by decide +kernel
+
+/-- the run above is a fair run with loss budget 1 (`Loop.runB` checks that every action is accepted and is fair or an
+allowed loss; `TcpLive.runB_sound`): it uses up the budget, and stops - quiescent and complete - as
+`terminates_under_loss_budget` says -/
+example : ((Loop.init (Sender.init .reno ({ (TCPCubic.defaults : CCState ℚ) with mss := 512, cwnd := 512, ssthresh := 65535 })
+      1 512 (some 1024) 0)).runB 1
+    [.own (.wake 4), .dropData 0, .own (.tick 2), .own (.fire 0), .deliver, .ackArrive, .own .handoff, .own (.wake 4),
+     .deliver, .ackArrive]).map (fun y => (y.1, decide y.2.Quiescent, decide (y.2.Complete 1024)))
+    = some (0, true, true) := by decide +kernel
+
+/-- a second loss is refused with budget 1, and advancing the clock while a packet is in flight is not fair -/
+example : ((Loop.init (Sender.init .reno ({ (TCPCubic.defaults : CCState ℚ) with mss := 512, cwnd := 512, ssthresh := 65535 })
+      1 512 (some 1024) 0)).runB 1
+    [.own (.wake 4), .dropData 0, .own (.tick 2), .own (.fire 0), .dropData 0]).isSome = false ∧
+  ((Loop.init (Sender.init .reno ({ (TCPCubic.defaults : CCState ℚ) with mss := 512, cwnd := 512, ssthresh := 65535 })
+      1 512 (some 1024) 0)).runB 1 [.own (.wake 4), .own (.tick 2)]).isSome = false ∧
+  ((Loop.init (Sender.init .reno ({ (TCPCubic.defaults : CCState ℚ) with mss := 512, cwnd := 512, ssthresh := 65535 })
+      1 512 (some 1024) 0)).run [.own (.wake 4), .own (.tick 2)]).isSome = true := by decide +kernel
+
+/-- a run over paths with delay in which the timer of segment 0 expires (`t = 2`) **while the segment is still in
+flight** (its path delivers it at `t = 3`): the segment is retransmitted, the original and then the duplicate are
+delivered, the duplicate is answered by a duplicate ACK, the second segment follows; the run (17 steps, no loss) is a
+`TBStep` run (`TLoop.runT` checks every side condition; `TcpLive.runT_sound`) and ends quiescent and complete -/
+example : ((TLoop.init (Sender.init .reno ({ (TCPCubic.defaults : CCState ℚ) with mss := 512, cwnd := 512, ssthresh := 65535 })
+      1 512 (some 1024) 0)).runT 0
+    [.burst (.wake 4) [3], .tick 2, .burst (.fire 0) [5], .tick 3, .deliver (7/2), .tick (7/2), .ackArrive [],
+     .burst .handoff [], .burst (.wake 4) [13/2], .tick 5, .deliver (11/2), .tick (11/2), .ackArrive [],
+     .tick (13/2), .deliver 7, .tick 7, .ackArrive []]).map
+      (fun y => (y.1, decide y.2.l.Quiescent, decide (y.2.l.Complete 1024), y.2.dT.length + y.2.aT.length))
+    = some (0, true, true, 0) := by decide +kernel
+
+/-- the clock cannot pass the delivery instant of a packet in flight (`tick 4` with a packet due at 3), it cannot stop
+between events (`tick 1`), and without budget nothing is lost -/
+example :
+  ((TLoop.init (Sender.init .reno ({ (TCPCubic.defaults : CCState ℚ) with mss := 512, cwnd := 512, ssthresh := 65535 })
+      1 512 (some 1024) 0)).runT 0 [.burst (.wake 4) [3], .tick 2, .burst (.fire 0) [5], .tick 4]).isSome = false ∧
+  ((TLoop.init (Sender.init .reno ({ (TCPCubic.defaults : CCState ℚ) with mss := 512, cwnd := 512, ssthresh := 65535 })
+      1 512 (some 1024) 0)).runT 0 [.burst (.wake 4) [3], .tick 1]).isSome = false ∧
+  ((TLoop.init (Sender.init .reno ({ (TCPCubic.defaults : CCState ℚ) with mss := 512, cwnd := 512, ssthresh := 65535 })
+      1 512 (some 1024) 0)).runT 0 [.burst (.wake 4) [3], .dropData 0]).isSome = false ∧
+  ((TLoop.init (Sender.init .reno ({ (TCPCubic.defaults : CCState ℚ) with mss := 512, cwnd := 512, ssthresh := 65535 })
+      1 512 (some 1024) 0)).runT 1 [.burst (.wake 4) [3], .dropData 0, .tick 2, .burst (.fire 0) [5]]).isSome = true := by
+  decide +kernel
+
+/-- the invariants `LInv`, `TInv` that `fair_run_facts`, `timed_run_facts` assume hold of the initial state of that
+flow (and hence of everything reachable from it: `TcpLive.reach_LInv`, `TcpLive.tbreach_TInv`) -/
+example : LInv 1024 (Loop.init (Sender.init .reno ({ (TCPCubic.defaults : CCState ℚ) with mss := 512, cwnd := 512, ssthresh := 65535 })
+      1 512 (some 1024) 0)) ∧
+    TInv 1024 (TLoop.init (Sender.init .reno ({ (TCPCubic.defaults : CCState ℚ) with mss := 512, cwnd := 512, ssthresh := 65535 })
+      1 512 (some 1024) 0)) := by
+  have f := fresh_init .reno ({ (TCPCubic.defaults : CCState ℚ) with mss := 512, cwnd := 512, ssthresh := 65535 }) 1 512 1024 0
+    ⟨by norm_num, by norm_num, by norm_num, fun h => by cases h⟩ (by norm_num) (by norm_num) (by norm_num) ⟨2, rfl⟩ (by norm_num)
+  exact ⟨LInv_init f, TInv_init f⟩
 
 end C16
